@@ -25,6 +25,8 @@ import (
 // classes: a any byte; w whitespace [ \t\n\r\v\f]; s [ \t]; l letter [A-Za-z];
 //          L lower-case letter; i identifier byte [A-Za-z0-9_]; d digit;
 //          x hex digit; p printable ASCII except quotes/backslash/$/{ ;
+//          I / j first / later byte of a name (incl. >= 0x80); q string-body byte other than
+//          quotes, backslash, '$', '{'; h any byte except '<';
 //          z 'Z' or 'z'; n any byte except \n and \r; c any byte except '*' '/' '?' '>' \n \r
 // BuildInput returns the buffer and, per byte, whether it belongs to a hole.
 
@@ -50,6 +52,14 @@ func classOK(c byte, b byte) bool {
 		return And(And(b >= 0x20, b <= 0x7e), And(And(b != '"', b != '\''), And(And(b != '\\', b != '$'), And(b != '{', b != '`'))))
 	case 'z':
 		return Or(b == 'Z', b == 'z')
+	case 'I': // first byte of a name
+		return Or(Or(And(b >= 'A', b <= 'Z'), And(b >= 'a', b <= 'z')), Or(b == '_', b >= 0x80))
+	case 'j': // later byte of a name
+		return Or(Or(Or(And(b >= 'A', b <= 'Z'), And(b >= 'a', b <= 'z')), Or(b == '_', b >= 0x80)), And(b >= '0', b <= '9'))
+	case 'q': // byte of a string body that starts nothing special
+		return And(And(And(b != '"', b != '\''), And(b != '\\', b != '$')), And(b != '{', b != '`'))
+	case 'h': // byte of inline HTML other than '<'
+		return b != '<'
 	case 'n':
 		return And(b != '\n', b != '\r')
 	case 'c':
